@@ -509,6 +509,19 @@ func (r *Reader) traverseNodeFiltered(n *html.Node, ctx *parseContext, elements 
 				ctx.listItems = nil
 			}
 
+			// The caption is not a cell: it goes in front of the table as a
+			// paragraph
+			for c := n.FirstChild; c != nil; c = c.NextSibling {
+				if c.Type == html.ElementNode && c.Data == "caption" && (ctx.checker == nil || !ctx.checker.shouldExclude(c)) {
+					if text := getTextContentFiltered(c, ctx.checker); text != "" {
+						*elements = append(*elements, parsedElement{
+							Type: ElementParagraph,
+							Text: text,
+						})
+					}
+				}
+			}
+
 			table := r.parseTable(n, ctx.checker)
 			if table != nil && len(table.Rows) > 0 {
 				*elements = append(*elements, parsedElement{
